@@ -945,7 +945,8 @@ ws_read_finish_msg(nni_ws *ws)
 
 	if ((rv = nni_msg_alloc(&msg, len)) != 0) {
 		nni_aio_finish_error(aio, rv);
-		ws_close_error(ws, WS_CLOSE_INTERNAL);
+		// (ws->mtx is held here, so not ws_close_error)
+		ws_close(ws, WS_CLOSE_INTERNAL);
 		return;
 	}
 	body = nni_msg_body(msg);
